@@ -98,8 +98,11 @@ def check_runs(ctx, T, prob, replies, what, expect_sched=None):
             if len(ctx.broken) < 6:
                 ctx.broken.append({"kind": "trace of the real code is not a path of the model", "model_says": o, "n_threads": tr["n"], "n_alpha": tr["m"],
                                    "problem": {k: prob[k] for k in ("pseed", "nF", "nneg")}, "schedule": tr["sched"], "trace_tail": " ".join(tr["toks"][-12:])})
-            if tr["status"] == "ret" and tr["same"] == "1" and ctx.violations == 0 and T.bad < 3:
-                T.bad += 1  # behaviour differs from the proved protocol although this run returned the right result
+            if tr["status"] == "ret" and T.bad < 2:
+                T.bad += 1  # the code left the proved protocol although this run returned: report the concrete schedule
+                ctx.violation({"problem": {k: prob[k] for k in ("pseed", "nF", "nneg")}, "n_threads": tr["n"], "n_alpha": tr["m"], "schedule": tr["sched"],
+                               "harness_cmds": ["P %d %d %d" % (prob["pseed"], prob["nF"], prob["nneg"]), "RUN %d sched %s" % (tr["n"], tr["sched"])], "model_says": o},
+                              "%s: the pthread-call trace of walk_descents/evaluate_descent (%d workers, schedule %s) is not a path of the verified protocol: %s" % (what, tr["n"], tr["sched"][:120], o))
         elif len(ctx.coverage["samples"]) < 5:
             ctx.coverage["samples"].append({"n_threads": tr["n"], "n_alpha": tr["m"], "policy": tr["policy"], "ops": len(tr["toks"]), "model": o})
 
